@@ -25,6 +25,14 @@ def actor(flavour, tag, prog_path, cwd=None):
 
 def run(spec, workdir, name="spec"):
     """Run one execution. Returns the report dict; raises TracerError on tracer failure."""
+    for a in spec.get("actors", ()):
+        argv = a.get("argv", ())
+        if len(argv) >= 4 and argv[1] in ("actor", "threads") and str(argv[-1]).startswith("@"):
+            try:
+                with open(argv[-1][1:]) as fh:
+                    ops.cover_program(os.path.basename(os.path.dirname(os.path.dirname(argv[0]))), json.load(fh))
+            except (OSError, ValueError):
+                pass
     sp = os.path.join(workdir, name + ".json")
     with open(sp, "w") as fh:
         json.dump(spec, fh)
